@@ -278,6 +278,50 @@ pub fn call_templates() -> Vec<Vec<Stmt>> {
         ] }),
         Stmt::Expr(Expr::Array(vec![call("fib", vec![Expr::Int(7)]), call("fib", vec![Expr::Int(1)]), call("fib", vec![Expr::Int(9)])])),
     ]);
+    // a name declared with `functie` is an ordinary variable: a call site reads it when the call happens,
+    // so re-binding the name changes what call sites compiled earlier call
+    {
+        let f = |name: &str, v: i64| Stmt::Expr(Expr::Func { name: name.into(), params: vec![], body: vec![Stmt::Expr(Expr::Int(v))] });
+        let anon = |v: i64| Expr::Func { name: String::new(), params: vec![], body: vec![Stmt::Expr(Expr::Int(v))] };
+        let g = Stmt::Expr(Expr::Func { name: "g".into(), params: vec![], body: vec![Stmt::Expr(infix("+", call("f", vec![]), Expr::Int(100)))] });
+        // assigned after a caller was defined
+        out.push(vec![f("f", 1), g.clone(), Stmt::Expr(Expr::Assign(b(id("f")), b(anon(2)))), Stmt::Expr(Expr::Array(vec![call("g", vec![]), call("f", vec![])]))]);
+        // assigned inside a loop whose body calls it before the assignment
+        out.push(vec![f("f", 1), Stmt::Let("i".into(), Expr::Int(0)),
+            Stmt::Expr(Expr::While { c: b(infix("<", id("i"), Expr::Int(3))), body: vec![
+                Stmt::Expr(call("print", vec![Expr::Str("{}".into()), call("f", vec![])])),
+                Stmt::Expr(Expr::Assign(b(id("f")), b(anon(2)))),
+                Stmt::Expr(Expr::Assign(b(id("i")), b(infix("+", id("i"), Expr::Int(1))))),
+            ] }),
+            Stmt::Expr(call("f", vec![]))]);
+        // re-bound by the callee itself, by another function, and to a function held in a variable
+        out.push(vec![f("f", 1),
+            Stmt::Expr(Expr::Func { name: "wissel".into(), params: vec![], body: vec![Stmt::Expr(Expr::Assign(b(id("f")), b(anon(7)))), Stmt::Expr(Expr::Int(0))] }),
+            g.clone(),
+            Stmt::Expr(Expr::Array(vec![call("g", vec![]), call("wissel", vec![]), call("g", vec![]), call("f", vec![])]))]);
+        out.push(vec![f("f", 1), f("h", 5), g.clone(), Stmt::Expr(Expr::Assign(b(id("f")), b(id("h")))),
+            Stmt::Expr(Expr::Array(vec![call("g", vec![]), call("f", vec![]), call("h", vec![])]))]);
+        // stub first, real definition assigned later (mutual recursion)
+        out.push(vec![
+            Stmt::Expr(Expr::Func { name: "oneven".into(), params: vec!["n".into()], body: vec![Stmt::Expr(Expr::Bool(false))] }),
+            Stmt::Expr(Expr::Func { name: "even".into(), params: vec!["n".into()], body: vec![
+                Stmt::Expr(Expr::If { c: b(infix("==", id("n"), Expr::Int(0))), th: vec![Stmt::Return(Expr::Bool(true))], el: None }),
+                Stmt::Expr(call("oneven", vec![infix("-", id("n"), Expr::Int(1))])),
+            ] }),
+            Stmt::Expr(Expr::Assign(b(id("oneven")), b(Expr::Func { name: String::new(), params: vec!["n".into()], body: vec![
+                Stmt::Expr(Expr::If { c: b(infix("==", id("n"), Expr::Int(0))), th: vec![Stmt::Return(Expr::Bool(false))], el: None }),
+                Stmt::Expr(call("even", vec![infix("-", id("n"), Expr::Int(1))])),
+            ] }))),
+            Stmt::Expr(Expr::Array(vec![call("even", vec![Expr::Int(4)]), call("even", vec![Expr::Int(7)]), call("oneven", vec![Expr::Int(3)])])),
+        ]);
+        // the same with a second `functie` of the same name (a new declaration: earlier call sites keep the old one)
+        out.push(vec![f("f", 1), g.clone(), f("f", 2), Stmt::Expr(Expr::Array(vec![call("g", vec![]), call("f", vec![])]))]);
+        // inside a function: a local function re-bound
+        out.push(vec![Stmt::Expr(Expr::Func { name: "buiten".into(), params: vec![], body: vec![
+            f("f", 1), Stmt::Let("a".into(), call("f", vec![])), Stmt::Expr(Expr::Assign(b(id("f")), b(anon(2)))),
+            Stmt::Expr(Expr::Array(vec![id("a"), call("f", vec![])])) ] }),
+            Stmt::Expr(call("buiten", vec![]))]);
+    }
     // functions with an empty body and parameters, functions returned from functions
     for np in 0..=3usize {
         let params: Vec<String> = pn[..np].iter().map(|s| s.to_string()).collect();
